@@ -136,6 +136,9 @@ def run(check, an: Analysis):
                    'removed from the waiter list: %s' % forms)
     # ---- suppress -------------------------------------------------------------
     _scope.check_suppression(check, an, 'suppress')
+    # an interrupted block closes every child, not every second one
+    from . import c04
+    c04.check_copy_iteration(check, an, 'P')
     aexit = an.callee(ISCOPE, '__aexit__')
     summ = an.it.summary(aexit, 'exc:' + CANCEL_SCOPE)
     silent = [p for p in summ.paths if p.kind == 'return' and len(p.outcome) > 2
